@@ -206,6 +206,9 @@ def item_dataset(repo, out):
                   and bool(gb) and ast.unparse(gb[0]) == 'kept = [dask_getitem(array.dataset, keep) for array in arrays]')
     ln = _nodoc(_func(cls, '__len__', REL).body)
     via['len'] = len(ln) == 1 and isinstance(ln[0], ast.Return) and ast.unparse(ln[0].value) == 'self.shape[0]'
+    it = _nodoc(_func(cls, '__iter__', REL).body)
+    out.append('Definition c04_iter_as_modelled : bool := %s.' % flag(
+        len(it) == 1 and ast.unparse(it[0]) == 'for index in range(len(self)):\n    yield self[index]'))
     for nm in ('shape', 'dtype', 'getitem', 'get', 'len'):
         out.append('Definition c04_%s_via_dataset : bool := %s.' % (nm, flag(via[nm])))
 
